@@ -95,7 +95,12 @@ def main():
     notes = []
 
     # 1. source facts regenerated from /repo, 2. Lean build + audit
-    facts_ok, facts_msg = srcfacts.generate(C.REPO, os.path.join(C.LEAN_DIR, "Pakhi", "Generated", "SrcFacts.lean"))
+    facts_ok, facts_msg, facts_missing = srcfacts.generate(C.REPO, os.path.join(C.LEAN_DIR, "Pakhi", "Generated", "SrcFacts.lean"))
+    for what in facts_missing:
+        # not a violation: the table is still tied to the code by the correspondence runs below
+        msg = f"source fact '{what}' not recognised in the current source (code shape changed); its agreement theorem is vacuous on this run, the tie for it rests on the correspondence runs"
+        notes.append(msg)
+        print("NOTE: " + msg)
     lean_ok, lean_log = C.build_model([f"Pakhi.Props.{prop}", "Pakhi.SrcFactsAgree"])
     proof_problems = []
     discharged = []
@@ -225,6 +230,10 @@ def main():
         "leanchecker": dict(LEANCHECKER),
         # `#print axioms` of every listed theorem on this run (empty list: no axioms at all)
         "axioms_per_theorem": dict(AXIOMS_USED),
+        # source facts whose code shape was not recognised on this run (their agreement theorems are vacuous; the tie for
+        # them rests on the correspondence runs)
+        "source_facts_not_recognised": list(facts_missing),
+        "notes": notes,
     }
     C.write_evidence(prop, tier, seed, cov, time.time() - t0, n_viol, getattr(mod, "ASSUMPTIONS", []))
     print(f"{prop} {tier}: {len(cases)} cases, {cov['evaluations']} requests, theorems {len(discharged)}/{len(theorems)}, "
